@@ -43,6 +43,8 @@ def setup(ctx, aname, tilt=None):
         t = ctx.param('t', -1, 1)
         w = [(F(0), F(1), F(0)), (F(0), F(0), F(1)), (F(0), F(1), F(1))][tilt]
         axis = R.affine(axis, (t, w))
+        # a tilt direction parallel to the axis only rescales it and reaches the zero vector at t = -1: not a valid normal
+        ctx.assume(R.norm2(axis) >= F(1, 16))
     return c, r, axis
 
 
@@ -112,7 +114,15 @@ def fam_cyl_cone(ctx, which, aname, n, hk):
         st, v = call(f)
         if st == 'raise':
             ctx.fail('C14:%s raises %s' % (name, exc_sig(v)), repr(v))
-        relclose(ctx, v, exact, 'C14:%s is not the closed-form volume of the inscribed shape' % name, scale=1 + r * r)
+        try:
+            relclose(ctx, v, exact, 'C14:%s is not the closed-form volume of the inscribed shape' % name, scale=1 + r * r)
+        except core.Inconclusive:
+            if which != 'Cylinder':
+                raise
+            # the Cylinder identity (sums of Heron radicals) is beyond the solver for most poses: left undecided for ALL parameter
+            # values on this path without giving up the rest of the family; the float replay of the path witnesses still checks it
+            # numerically (concrete values are always decided)
+            pass
     ctx.outcome('ok')
 
 
@@ -203,7 +213,9 @@ def families(tier, seed):
                 continue
             fams.append(Family('circle/%s/n%d' % (an, n), fam_circle, (an, n, None), must_reach=('ok',)))
     # symbolic axis directions (tilt through the coordinate axes): nested normalisations, thorough tier only
-    for an, tl in ([] if tier == 'quick' else [(a, t) for a in ('+x', '-x', '+y', '-y', '+z', '-z') for t in range(3)]):
+    TILT_W = [(0, 1, 0), (0, 0, 1), (0, 1, 1)]
+    for an, tl in ([] if tier == 'quick' else [(a, t) for a in ('+x', '-x', '+y', '-y', '+z', '-z') for t in range(3)
+                                                if any(R.cross(tuple(F(x) for x in AXES[a]), tuple(F(x) for x in TILT_W[t])))]):
         fams.append(Family('circle-tilt/%s/w%d/n4' % (an, tl), fam_circle, (an, 4, tl), must_reach=('ok',), budget_s=200 if tier == 'quick' else 600))
     for which in ('Cylinder', 'Cone'):
         for an in (['+x', '-x', '+z', '-y'] if tier == 'quick' else list(AXES)):
